@@ -127,7 +127,7 @@ def Pointwise {α β : Type} (R : α → β → Prop) : List α → List β → 
 /-- `clamp(value, lower_bound, upper_bound)` of `_utils.h`. -/
 def clampI (v lo hi : Int) : Int := if v > lo then (if v > hi then hi else v) else lo
 
-/-- The words of an `arena` and its `pm_client` that the worker budget depends on. -/
+/-- The request words of an `arena` and its `pm_client`. -/
 structure Arena where
   id : Nat
   maxNumWorkers : Nat        -- arena::my_max_num_workers
@@ -135,8 +135,6 @@ structure Arena where
   totalReq : Int := 0        -- arena::my_total_num_workers_requested
   minW : Nat := 0            -- pm_client::my_min_workers
   maxW : Nat := 0            -- pm_client::my_max_workers
-  allotted : Nat := 0        -- arena::my_num_workers_allotted
-  top : Bool := false        -- arena::my_is_top_priority
   deriving Repr, DecidableEq
 
 /-- `arena::update_request` followed by `pm_client::update_request`: new arena words and the returned `delta`. -/
@@ -150,63 +148,93 @@ def Arena.updateRequest (a : Arena) (md wd : Int) : Arena × Int :=
 
 def Arena.client (a : Arena) : Client := { minW := a.minW, maxW := a.maxW }
 
+/-- What `update_allotment` writes into an arena: `(my_num_workers_allotted, my_is_top_priority)`. -/
+abbrev Grant := Nat × Bool
+
 structure Market where
-  softLimit : Nat                 -- my_num_workers_soft_limit
-  totalDemand : Int := 0          -- my_total_demand
-  levelDemand : List Int          -- my_priority_level_demand[num_priority_levels]
-  mandatoryNum : Int := 0         -- my_mandatory_num_requested
-  clients : List (List Arena)     -- my_clients[num_priority_levels], vector order
+  softLimit : Nat                      -- my_num_workers_soft_limit
+  totalDemand : Int := 0               -- my_total_demand
+  mandatoryNum : Int := 0              -- my_mandatory_num_requested
+  lv : List (Int × List Arena)         -- per level: (my_priority_level_demand[l], my_clients[l] in vector order)
+  grants : List (List Grant)           -- per level, per client (same shape as the client lists)
   deriving Repr, DecidableEq
 
 def Market.init (soft : Nat) : Market :=
-  { softLimit := soft, levelDemand := List.replicate Generated.C16.numPriorityLevels 0,
-    clients := List.replicate Generated.C16.numPriorityLevels [] }
+  { softLimit := soft, lv := List.replicate Generated.C16.numPriorityLevels (0, []),
+    grants := List.replicate Generated.C16.numPriorityLevels [] }
 
 /-- The `(demand, clients)` view `update_allotment` iterates over. -/
 def Market.levels (m : Market) : List (Nat × List Client) :=
-  List.zipWith (fun d cs => (d.toNat, cs.map Arena.client)) m.levelDemand m.clients
+  m.lv.map (fun p => (p.1.toNat, p.2.map Arena.client))
 
-def applyOut (a : Arena) (o : Out) : Arena :=
-  { a with allotted := o.allotted, top := o.setTop.getD a.top }
+def applyOut (g : Grant) (o : Out) : Grant := (o.allotted, o.setTop.getD g.2)
 
 /-- `market::update_allotment()`.  `none`: a negative demand word (`__TBB_ASSERT(max_workers >= 0)`, undefined
 afterwards) or an integer division by zero. -/
 def Market.updateAllotment (m : Market) : Option Market :=
-  if m.totalDemand < 0 ∨ m.levelDemand.any (· < 0) then none
+  if m.totalDemand < 0 ∨ m.lv.any (·.1 < 0) then none
   else
     match C16.updateAllotment m.softLimit m.totalDemand.toNat m.mandatoryNum.toNat m.levels with
     | none => none
-    | some (_, oss) => some { m with clients := List.zipWith (fun cs os => List.zipWith applyOut cs os) m.clients oss }
+    | some (_, oss) => some { m with grants := List.zipWith (fun gs os => List.zipWith applyOut gs os) m.grants oss }
 
 def Market.find (m : Market) (id : Nat) : Option (Nat × Nat) :=
-  let rec go (l : Nat) : List (List Arena) → Option (Nat × Nat)
+  let rec go (l : Nat) : List (Int × List Arena) → Option (Nat × Nat)
     | [] => none
-    | cs :: rest => match cs.findIdx? (·.id == id) with
+    | p :: rest => match p.2.findIdx? (·.id == id) with
       | some i => some (l, i)
       | none => go (l + 1) rest
-  go 0 m.clients
+  go 0 m.lv
 
-def Market.allotView (m : Market) : List (List Nat) := m.clients.map (·.map (·.allotted))
+def Market.allotView (m : Market) : List (List Nat) := m.grants.map (·.map (·.1))
 
 /-- `market::set_active_num_workers` -/
 def Market.setLimit (m : Market) (n : Nat) : Option Market :=
   if m.softLimit ≠ n then ({ m with softLimit := n }).updateAllotment else some m
 
-/-- `market::adjust_demand` up to (not including) `notify_thread_request(delta)`; returns `delta`. -/
-def Market.adjust (m : Market) (l i : Nat) (md wd : Int) : Option (Market × Int) :=
-  match m.clients[l]?, m.levelDemand[l]? with
-  | some cs, some d =>
+/-- The state change of `market::adjust_demand` before `update_allotment()`; returns `delta`. -/
+def Market.request (m : Market) (l i : Nat) (md wd : Int) : Option (Market × Int) :=
+  match m.lv[l]? with
+  | some (d, cs) =>
     match cs[i]? with
     | some a =>
-      let (a', delta) := a.updateRequest md wd
-      let m1 : Market := { m with
-        totalDemand := m.totalDemand + delta
-        levelDemand := m.levelDemand.set l (d + delta)
+      let r := a.updateRequest md wd
+      some ({ m with
+        totalDemand := m.totalDemand + r.2
         mandatoryNum := m.mandatoryNum + md
-        clients := m.clients.set l (cs.set i a') }
-      m1.updateAllotment.map (fun m2 => (m2, delta))
+        lv := m.lv.set l (d + r.2, cs.set i r.1) }, r.2)
     | none => none
-  | _, _ => none
+  | none => none
+
+/-- `market::adjust_demand` up to (not including) `notify_thread_request(delta)`; returns `delta`. -/
+def Market.adjust (m : Market) (l i : Nat) (md wd : Int) : Option (Market × Int) :=
+  match m.request l i md wd with
+  | some (m1, delta) => m1.updateAllotment.map (fun m2 => (m2, delta))
+  | none => none
+
+/-- `market::register_client` (`push_back`); the arena starts with allotment 0. -/
+def Market.register (m : Market) (id level mnw : Nat) : Option Market :=
+  match m.find id, m.lv[level]?, m.grants[level]? with
+  | none, some (d, cs), some gs =>
+    some { m with lv := m.lv.set level (d, cs ++ [{ id := id, maxNumWorkers := mnw }]),
+                  grants := m.grants.set level (gs ++ [(0, false)]) }
+  | _, _, _ => none
+
+/-- `market::unregister_and_destroy_client`; only an arena without outstanding requests is destroyed
+(`arena::free_arena` asserts it). -/
+def Market.unregister (m : Market) (id : Nat) : Option Market :=
+  match m.find id with
+  | some (l, i) =>
+    match m.lv[l]?, m.grants[l]? with
+    | some (d, cs), some gs =>
+      match cs[i]? with
+      | some a =>
+        if a.maxW = 0 ∧ a.mandReq = 0 then
+          some { m with lv := m.lv.set l (d, cs.eraseIdx i), grants := m.grants.set l (gs.eraseIdx i) }
+        else none
+      | none => none
+    | _, _ => none
+  | none => none
 
 /-! ## 3. `thread_request_serializer` -/
 
@@ -310,24 +338,8 @@ inductive WOp where
 /-- One operation; `none` = the operation is rejected (unknown / duplicate id, bad level, `mandatory_delta`
 outside `[-1,1]`, unregistering a client that still requests workers, or `update_allotment` undefined). -/
 def World.step (w : World) : WOp → Option World
-  | .reg id level mnw =>
-    match w.market.find id, w.market.clients[level]? with
-    | none, some cs =>
-      some { w with market := { w.market with clients := w.market.clients.set level (cs ++ [{ id := id, maxNumWorkers := mnw }]) } }
-    | _, _ => none
-  | .unreg id =>
-    match w.market.find id with
-    | some (l, i) =>
-      match w.market.clients[l]? with
-      | some cs =>
-        match cs[i]? with
-        | some a =>
-          if a.maxW = 0 ∧ a.mandReq = 0 then
-            some { w with market := { w.market with clients := w.market.clients.set l (cs.eraseIdx i) } }
-          else none
-        | none => none
-      | none => none
-    | none => none
+  | .reg id level mnw => (w.market.register id level mnw).map (fun m => { w with market := m })
+  | .unreg id => (w.market.unregister id).map (fun m => { w with market := m })
   | .adjust id md wd =>
     if md < -1 ∨ 1 < md then none else
     match w.market.find id with
@@ -346,6 +358,13 @@ def World.step (w : World) : WOp → Option World
     let p1 := w.proxy.setLimit n
     match w.market.setLimit n with
     | some m2 => some { market := m2, proxy := p1, userLimit := n }
+    | none => none
+
+/-- Run a sequence of operations; `none` as soon as one is rejected. -/
+def World.run (w : World) : List WOp → Option World
+  | [] => some w
+  | o :: os => match w.step o with
+    | some w' => w'.run os
     | none => none
 
 /-! ### the packed pending-delta word under interleaving -/
